@@ -71,13 +71,20 @@
 	 ((n) == IOV_P7(L, N, a) || (n) < IOV_P8(L, N, a)) ? VP_MIN(7u, N(a)) : N(a))
 
 
-/* the described byte sequence fits the address space: no prefix sum wraps */
-#define VIOV_LENMAX (SIZE_MAX >> 3)
-#define IOV_NOWRAP_ENT(a, i) ((i) >= (a)->a_nio || (a)->a_iov[i].iov_len <= VIOV_LENMAX)
+/* the described byte sequence fits size_t: no prefix sum wraps, i.e. the
+ * prefix sums are monotone */
 #define IOV_NOWRAP(a)                                                   \
-	(IOV_NOWRAP_ENT(a, 0) && IOV_NOWRAP_ENT(a, 1) && IOV_NOWRAP_ENT(a, 2) && \
-	    IOV_NOWRAP_ENT(a, 3) && IOV_NOWRAP_ENT(a, 4) && IOV_NOWRAP_ENT(a, 5) && \
-	    IOV_NOWRAP_ENT(a, 6) && IOV_NOWRAP_ENT(a, 7))
+	(IOV_P1(IOV_CL, IOV_CN, a) <= IOV_P2(IOV_CL, IOV_CN, a) && IOV_P2(IOV_CL, IOV_CN, a) <= IOV_P3(IOV_CL, IOV_CN, a) && \
+	    IOV_P3(IOV_CL, IOV_CN, a) <= IOV_P4(IOV_CL, IOV_CN, a) && IOV_P4(IOV_CL, IOV_CN, a) <= IOV_P5(IOV_CL, IOV_CN, a) && \
+	    IOV_P5(IOV_CL, IOV_CN, a) <= IOV_P6(IOV_CL, IOV_CN, a) && IOV_P6(IOV_CL, IOV_CN, a) <= IOV_P7(IOV_CL, IOV_CN, a) && \
+	    IOV_P7(IOV_CL, IOV_CN, a) <= IOV_P8(IOV_CL, IOV_CN, a))
+#define IOV_SNOWRAP                                                     \
+	(IOV_P1(IOV_SL, IOV_SN, aio) <= IOV_P2(IOV_SL, IOV_SN, aio) && IOV_P2(IOV_SL, IOV_SN, aio) <= IOV_P3(IOV_SL, IOV_SN, aio) && \
+	    IOV_P3(IOV_SL, IOV_SN, aio) <= IOV_P4(IOV_SL, IOV_SN, aio) && IOV_P4(IOV_SL, IOV_SN, aio) <= IOV_P5(IOV_SL, IOV_SN, aio) && \
+	    IOV_P5(IOV_SL, IOV_SN, aio) <= IOV_P6(IOV_SL, IOV_SN, aio) && IOV_P6(IOV_SL, IOV_SN, aio) <= IOV_P7(IOV_SL, IOV_SN, aio) && \
+	    IOV_P7(IOV_SL, IOV_SN, aio) <= IOV_P8(IOV_SL, IOV_SN, aio))
+/* every entry already dropped was used up completely: n0 is beyond it */
+#define ADV_DROPPED_OK(j) ((j) >= ADV_GONE || (vp_n0 > IOV_PJ(IOV_SL, IOV_SN, aio, j) && vp_n0 >= IOV_PJ(IOV_SL, IOV_SN, aio, (j) + 1u)))
 
 /* ---- loop invariants of nni_aio_iov_advance (woven) ---------------------
  * vp_in / vp_n0: snapshot of *aio and n taken by a ghost statement woven at
@@ -103,9 +110,15 @@
 
 /* shape precondition: the aio exists, the count respects the array, every
  * non-empty entry in use names an existing buffer of that length */
+#ifdef IOV_BUFFERS_OPAQUE
+/* buffer positions are arbitrary pointer values (the function never looks
+ * through them); that the bump stays inside the buffer is a postcondition */
+#define IOV_ENT_PRE(a, i) (1)
+#else
 #define IOV_ENT_PRE(a, i)                                               \
 	((i) >= (a)->a_nio || (a)->a_iov[i].iov_len == 0 ||                 \
 	    __CPROVER_is_fresh((a)->a_iov[i].iov_buf, (a)->a_iov[i].iov_len))
+#endif
 #define IOV_PRE(a)                                                      \
 	(__CPROVER_is_fresh((a), sizeof(nni_aio)) && (a)->a_nio <= VIOV_MAX && IOV_NOWRAP(a) && \
 	    IOV_ENT_PRE(a, 0) && IOV_ENT_PRE(a, 1) && IOV_ENT_PRE(a, 2) &&  \
